@@ -367,7 +367,7 @@ func (vc *VC) computeFrame(env *cenv, k *FuncContract) {
 // frameGoal: variable v in state st agrees with the entry state outside the
 // modifies clause (at every pre-allocated key). "" = nothing to show.
 func (vc *VC) frameGoal(v string, st *State) string {
-	if strings.HasPrefix(v, "$") || strings.HasPrefix(v, "W!") || v == "Gh!maxAlloc" || v == "Gh!poolGets" || v == "Gh!poolPuts" || v == "Gh!bufferReleases" || v == "Gh!releasedBufs" {
+	if strings.HasPrefix(v, "$") || strings.HasPrefix(v, "W!") || v == "Gh!maxAlloc" || v == "Gh!poolGets" || v == "Gh!poolPuts" || v == "Gh!bufferReleases" || v == "Gh!releasedBufs" || v == "Gh!argAllocs" || v == "Gh!msgPuts" {
 		// Gh!maxAlloc is a monitor: it records the allocations of the function under
 		// verification (and inlined helpers); callees report theirs only if their
 		// contract lists ghost.maxAlloc
